@@ -18,9 +18,16 @@ CHECK = {
              "Transformation) + all 48 signed permutation matrices (24 proper also as SignedPermutation) "
              "x 2 translations + 3 Householder reflections x 2 + 4 generic rotations x 2 (3) translations; "
              "every surface x every transform: sense of the transformed surface at transform_up(x) == "
-             "sign of the original f(x) on the lattice and 2^-12 either side of on-surface points; "
-             "transform algebra against an own matrix model; SurfaceSimplifier chains preserve the region; "
-             "TransformSimplifier. inv: 324 (1620) involutes x lattice x 25 (33) directions. "
+             "sign of the original f(x) on the lattice and 2^-12 and 2^-24 either side of on-surface points; "
+             "transform algebra against an own matrix model; make_permutation(axis, quarter turns) for 3 axes "
+             "x {-5,-2,-1,0..7} against an own exact integer model and make_rotation; SurfaceSimplifier "
+             "chains preserve the region, including plane/cylinder/sphere/cone instances whose offset from "
+             "the axis/origin lies between the tolerance and its square root (1e-7, 2^-20, 1e-5, 2^-17; "
+             "2^-11, 1e-4 for the thorough tier's tolerance 1e-6) and must therefore NOT be snapped; "
+             "TransformSimplifier. surf, state 'on': at most one distance comes back and it is the other "
+             "root -2hb/a (nothing for planes, along-surface and axis-parallel rays). inv: 324 (1620) "
+             "involutes x lattice x 25 (33) directions; rays started on the curve never report an in-plane "
+             "distance below 1e-7 r_b. "
              "non-trivial = distinct (surface instance, solver regime/branch reached) pairs [surf] and "
              "distinct surface instances taken through all transforms [xform, inv]."),
     "assumptions": [
@@ -31,8 +38,13 @@ CHECK = {
         "alphabet chosen from the branch structure of the code)",
         "documented behaviour is not flagged: QuadraticSolver linearises when |a| < 1e-10 and drops the far "
         "root; cylinders report nothing when 1-w^2 < 1e-10; on-surface calls assume c == 0; involute "
-        "solver drops hits closer than 1e-6 r_b when on the surface; SurfaceSimplifier snaps within its "
-        "tolerance (points closer than 16 tol x magnitude to the surface are not judged)",
+        "solver drops hits closer than 1e-6 r_b when on the surface (asserted: nothing below 1e-7 r_b "
+        "may be reported); SurfaceSimplifier snaps within its tolerance (points closer than 16 tol x "
+        "magnitude to the surface are not judged)",
+        "a missed involute crossing is proven by the independent marching oracle; only its attribution "
+        "to the recorded known finding uses a double-precision copy of the documented bracketing scheme "
+        "(harness/c12_inv.cc documented_scheme_nearest): a crossing that the documented scheme finds but "
+        "the code under test loses is reported under a different signature",
         "Transformation(SignedPermutation const&) is declared but not defined in liborange, so signed "
         "permutations reach SurfaceTransformer through explicit matrices",
         "SurfaceTransformer(Involute) is CELER_NOT_IMPLEMENTED upstream and is not called",
@@ -40,11 +52,13 @@ CHECK = {
     "bounds": {
         "quick": {"surface_instances": 20807, "sq_family": "3^3 x 3^3 x 3", "gq_family": "3^6 x 2^3 x 3",
                   "lattice_simple": "5^3 + 6 far + 16 on + 12 near + 8 tangent", "lattice_sq": "4^3+2+8",
-                  "lattice_gq": "3^3+2+6", "transforms": 128, "xform_surfaces": 3484, "involutes": 324},
+                  "lattice_gq": "3^3+2+6", "transforms": 128, "xform_surfaces": 3552, "involutes": 324,
+                  "xform_near_rings": "2^-12, 2^-24", "make_permutation": "3 axes x 11 quarter-turn counts"},
         "thorough": {"surface_instances": 73672, "sq_family": "5^3 x 3^3 x 4", "gq_family": "3^10",
                      "lattice_simple": "7^3 + 10 far + 40 on + 24 near + 16 tangent", "lattice_sq": "5^3+6+16",
-                     "lattice_gq": "4^3+4+10", "transforms": 132, "xform_surfaces": 21074,
-                     "involutes": 1620},
+                     "lattice_gq": "4^3+4+10", "transforms": 132, "xform_surfaces": 21142,
+                     "involutes": 1620, "xform_near_rings": "2^-12, 2^-24",
+                     "make_permutation": "3 axes x 11 quarter-turn counts"},
     },
     "parts": [
         {"name": "surf", "harness": "c12_surfaces", "sources": _SRC, "flavour": "rel",
@@ -78,6 +92,9 @@ META = {
              "(repaired, /repo ab1a0ba), SurfaceTranslator(Involute) clockwise displacement angle and "
              "InvoluteSolver missed crossings (known_findings.json; signatures "
              "involute:translated-surface-has-different-point-set / involute:missed-nearer-crossing are "
-             "reserved for exactly these causes, any other involute inconsistency gets its own signature). "
+             "reserved for exactly these causes: a miss counts as the recorded one only if the documented "
+             "bracketing scheme, replayed in double, loses the same crossing; otherwise "
+             "involute:missed-crossing-that-documented-scheme-finds; any other involute inconsistency gets its "
+             "own signature). "
              "Standalone reproduction: harness/c12_repro_defects.cc."),
 }
